@@ -291,6 +291,10 @@ def bestType (prio : List (String × Nat)) (l r : String) : Except TrErr String 
   | none, _ => .error (.unknownType l)
   | _, none => .error (.unknownType r)
 
+/-- `visit_UnaryOp`: `not x` is a bool whatever the operand is (since ea7911a); `+x` and `-x` keep
+the operand's declared type. -/
+def unTy (op ty : String) : String := if op = "Not" then "bool" else ty
+
 /- pass 2: `visit_function_ast`, `visit_Call` (unknown name), `visit_BinOp`,
 `visit_special_BinOp`, `visit_UnaryOp`. -/
 mutual
@@ -337,7 +341,7 @@ def emit (c : Cfg) : RExpr → Except TrErr CVal
     | some sym =>
       match emit c e with
       | .error er => .error er
-      | .ok v => .ok ⟨.un sym v.term, v.ty, v.incs⟩
+      | .ok v => .ok ⟨.un sym v.term, unTy op v.ty, v.incs⟩
 def emitList (c : Cfg) : List RExpr → Except TrErr (List CExpr × List String)
   | [] => .ok ([], [])
   | a :: as =>
